@@ -18,6 +18,7 @@ CHECKS = {
  "C07": ("exploration", "Whole system in the simulator (real Client + SOCKS5/HTTP/UDP front-ends + real Server + DNS cache on the virtual clock + rustls): histories of 1-12 requests over IPv4/IPv6/name destinations (name lengths 1..255) and boundary ports, with virtual gaps inside and beyond the 60 s cache lifetime, tiny-size padding schemes and a raw TLS client that spreads the destination over several PSH frames; oracle = the simulated network's connect/datagram log after every request.", "7/C07", ""),
  "C10": ("exploration", "Real Client and front-ends against (a) the real Server with targets that accept after a delay / refuse / black-hole and names that resolve slowly / fail / hang, and (b) a scripted TLS server answering each open before / around / after the 30 s wait, twice, for unknown ids, with an error text, never, or killing the session; 1-6 racing opens; oracle on virtual time, the connect log and every byte the application receives (one reply, success only after the connect, reason text, prompt failure on session death).", "7/C10", ""),
  "C15": ("exploration", "Rounds of datagrams of boundary sizes (1..65507) in both directions through (a) the whole system on a lossless, ordered simulated UDP network (real Client::create_udp_proxy, real sessions over rustls, real Server and handle_udp_over_tcp) and (b) the real handle_udp_over_tcp behind a real server Session fed by a scripted peer that cuts the length-prefixed byte stream into PSH frames at seeded offsets, always inside the first prefix and sometimes one byte per frame; one-for-one, same-size, same-bytes, right-address oracle.", "7/C15", ""),
+ "C19": ("exploration", "Cases over {default factory touched before or not} x client scheme x 1-3 successive server schemes x 2-4 sessions x optional unparsable push. Session mode: real client Session against a real server Session with a differing/identical scheme on plaintext recording pipes (push iff md5 differs; the client's packets after the push satisfy the C05 acceptor under the pushed scheme). Client mode: real Client against a scripted TLS server that records the md5 every new session announces, pushes, switches schemes and pushes garbage (later sessions announce the pushed scheme, the pushed-to session holds it, garbage changes nothing). The process-wide default is reset before every case through a guarded hook.", "7/C19", ""),
  "C16": ("exploration", "One seeded client byte stream per run (greeting with 0-255 methods, request with any version/command/reserved/address-type byte, IPv4/IPv6/name of length 0-255, boundary ports, optional truncation at any byte or trailing bytes) written to the real SOCKS5 front-end in seeded segments down to single bytes with delays; targets accept/refuse/black-hole; sibling and fresh connections check isolation; oracle = 60-line reference SOCKS5 server + the simulated network's connect log + reply timing.", "7/C16", ""),
  "C17": ("exploration", "One seeded well-formed proxy request per run (CONNECT / absolute-form / origin-form+Host, methods incl. lower-case and extension, names / IPv4 / bracketed IPv6 with and without ports, header sets with seeded order, Host spelling and position, header blocks padded to ~1 KiB / ~2 KiB / the 64 KiB limit, body bytes in the same segments as the header and later, early tunnel bytes for CONNECT) written to the real HTTP front-end with seeded segmentation; oracle = independent reference for authority, status, the rewritten request the origin must receive byte for byte, and relayed bytes both ways.", "7/C17", ""),
  "C08": ("exploration", "(a) Receive side, strict: a scripted peer sends interleaved PSH chunks and FIN for 1-4 streams to a real client/server Session whose readers are blocked, slow or absent; every byte then EOF, EOF only for ids with FIN, exactly those ids released from both tables, writes on the finished stream still reach the wire. (b) End to end through the whole system (SOCKS5 / HTTP CONNECT tunnels): the application or the target closes / half-closes with up to 200000 bytes in flight; bytes-before-EOF, reverse direction and siblings are strict; EOF propagation and state/task release fail on the current tree (no FIN is ever emitted) and are recorded as known findings per closing side and mode.", "7/C08", "Known findings: see /verif/known_findings.json (C08 entries)."),
